@@ -1002,6 +1002,15 @@ def corpus(pid):
                             "helpers": [[["wait_running", 0], ["sleep", 0.15], ["set", "fail"]]],
                             "timeout": 10, "linger": 0.3,
                             "meta": {"family": "fail", "fails": [["p", 0, fl, ["raise", eid]]], "immediate": False}})
+        # a payload that fails when it is CALLED (a plain callable that never becomes a coroutine), each flavour, alone
+        for k, fl in enumerate(FLS):
+            out.append({"runners": [{"accept_delay": 0.05}],
+                        "payloads": {"0": {"flavour": fl, "script": [], "callfail": k},
+                                     "1": {"flavour": FLS[(k + 1) % 3], "script": [["beat", 3000, 0.01]]}},
+                        "services": {}, "main": [["adopt", 0, 1], ["accept", 0]],
+                        "helpers": [[["wait_running", 0], ["sleep", 0.15], ["adopt", 0, 0]]],
+                        "timeout": 10, "linger": 0.3,
+                        "meta": {"family": "fail", "fails": [["p", 0, fl, ["raise", k]]], "immediate": True}})
         # a payload fails while a coroutine bystander of the other loop is inside a synchronous cross-flavour execute
         # (the closing runners must not wait for each other): both directions x a failing asyncio / thread payload
         for (cfl, tfl) in (("trio", "asyncio"), ("asyncio", "trio")):
